@@ -602,13 +602,20 @@ class DecisionMatrix(DiffEqualityMixin):
 
         # Check if have the same shape and if all elements are close.
         def same_shape_array_allclose(left_value, right_value):
-            return same_shape and np.allclose(
-                left_value,
-                right_value,
-                rtol=rtol,
-                atol=atol,
-                equal_nan=equal_nan,
-            )
+            if not same_shape:
+                return False
+            try:
+                return np.allclose(
+                    left_value,
+                    right_value,
+                    rtol=rtol,
+                    atol=atol,
+                    equal_nan=equal_nan,
+                )
+            except TypeError:
+                # non-numeric (object dtype) values cannot be compared with
+                # a tolerance: compare them exactly
+                return np.array_equal(left_value, right_value)
 
         members = {
             "shape": np.array_equal,  # the shape must be equal
